@@ -182,6 +182,10 @@ PutBegin(p, rec) ==
           /\ wr' = [p |-> p, rec |-> rec, by |-> "gc"]
           /\ gc' = [gc EXCEPT !.wrote = TRUE]
           /\ UNCHANGED gcn
+       \/ /\ ~(\E r \in Rpcs : InHandler(r) /\ rpc[r].k = "add" /\ rpc[r].p = p /\ rpc[r].c = rec.c) /\ gc.st \notin {"in", "out"}
+          /\ GA(FALSE)                                  \* a record written by nobody: no ADD of that sandbox is inside its handler, no pass runs
+          /\ wr' = [p |-> p, rec |-> rec, by |-> "orphan"]
+          /\ UNCHANGED <<gc, gcn>>
     /\ UNCHANGED <<cloud, pod, disk, acked, rpc, apierr, conv, up, dbf>>
 
 DelBegin(p) ==
@@ -196,6 +200,10 @@ DelBegin(p) ==
           /\ G("C09", GcMayTouch(p))
           /\ wr' = [p |-> p, rec |-> NoRec, by |-> "gc"]
           /\ gc' = [gc EXCEPT !.wrote = TRUE]
+       \/ /\ ~(\E r \in Rpcs : InHandler(r) /\ rpc[r].k = "del" /\ rpc[r].p = p) /\ gc.st \notin {"in", "out"}
+          /\ GA(FALSE)                                  \* a record deleted by nobody
+          /\ wr' = [p |-> p, rec |-> NoRec, by |-> "orphan"]
+          /\ UNCHANGED gc
     /\ UNCHANGED <<cloud, pod, disk, acked, rpc, gcn, apierr, conv, up, dbf>>
 
 WriteEnd(p, ok) ==
